@@ -11,6 +11,7 @@ Hermitian systems with num_wann = 1..5 (odd and even), compared on lattice, cent
 precision), and on the band energies at random k-points.
 """
 import contextlib
+import itertools
 import io
 import os
 import shutil
@@ -250,8 +251,59 @@ def _real_roundtrips(rng, n):
         cases += 1
         if bad:
             fails.append(dict(input=dict(num_wann=nw, seed=seed), clause="reloaded system == saved system", failed=bad))
+    # R-sets of other sizes: the text formats write the degeneracies 15 to a line, so sizes around and at multiples of 15 are the layout's corner cases
+    for nR in (13, 15, 17, 45) if n <= 30 else (1, 3, 13, 15, 17, 29, 31, 45, 75):
+        seed = rng.randint(0, 10 ** 6)
+        d = tempfile.mkdtemp(prefix="verif_c18_")
+        bad = []
+        try:
+            with contextlib.redirect_stdout(io.StringIO()):
+                nw = 1 + nR % 3
+                s = _pair_system(nw, (nR - 1) // 2, seed)
+                ks = rnp.random.rand(3, 3)
+                for what, back in (("_hr.dat", lambda: (s.to_hr_file(seedname=os.path.join(d, "sys")), System_R.from_hr_file(os.path.join(d, "sys"), real_lattice=s.real_lattice))[1]),
+                                   ("_tb.dat", lambda: (s.to_tb_file(tb_file=os.path.join(d, "sys_tb.dat")), System_R.from_tb_file(tb_file=os.path.join(d, "sys_tb.dat"), berry=True))[1])):
+                    try:
+                        _compare(s, back(), 1e-5 if what == "_hr.dat" else 1e-7, what, bad, ks)
+                    except Exception as e:
+                        bad.append("%s: %s: %s" % (what, type(e).__name__, e))
+        finally:
+            shutil.rmtree(d, ignore_errors=True)
+        cases += 1
+        if bad:
+            fails.append(dict(input=dict(num_wann=nw, nRvec=nR, seed=seed), clause="reloaded system == saved system", failed=bad))
     return dict(cases=cases, failures=fails, distinct=cases)
 
 
+def _pair_system(nw, npairs, seed):
+    """Hermitian System_R on R = 0 and `npairs` pairs +-R (2*npairs + 1 vectors), built directly"""
+    from wannierberri.system.system_R import System_R
+    from wannierberri.fourier.rvectors import Rvectors
+    rs = rnp.random.RandomState(seed)
+    latt = rnp.array([[3.0, 0.1, 0.0], [0.2, 3.5, 0.0], [0.0, 0.3, 4.0]])
+    half = [R for R in itertools.product(range(0, 4), range(-3, 4), range(-3, 4)) if R > (0, 0, 0)]
+    pos = [half[i] for i in rs.permutation(len(half))[:npairs]]
+    iR = rnp.array([(0, 0, 0)] + pos + [tuple(-x for x in R) for R in pos], dtype=int)
+    idx = {tuple(int(x) for x in R): i for i, R in enumerate(iR)}
+    H = rs.normal(size=(len(iR), nw, nw)) + 1j * rs.normal(size=(len(iR), nw, nw))
+    A = rs.normal(size=(len(iR), nw, nw, 3)) + 1j * rs.normal(size=(len(iR), nw, nw, 3))
+    H2, A2 = H.copy(), A.copy()
+    for R, i in idx.items():
+        j = idx[tuple(-x for x in R)]
+        H2[i] = 0.5 * (H[i] + H[j].conj().T)
+        A2[i] = 0.5 * (A[i] + A[j].conj().transpose(1, 0, 2))
+    A2[0, rnp.arange(nw), rnp.arange(nw)] = 0
+    s = System_R(name="pairs")
+    s.real_lattice = latt
+    s.num_wann = nw
+    s.wannier_centers_cart = rs.uniform(-1, 1, size=(nw, 3))
+    s.clear_cached_wcc()
+    s.rvec = Rvectors(lattice=latt, iRvec=iR, shifts_left_red=s.wannier_centers_red)
+    s.set_R_mat("Ham", H2)
+    s.set_R_mat("AA", A2)
+    s.do_at_end_of_init()
+    return s
+
+
 Unit("C18", "npz / _tb.dat / _hr.dat round trips [real files]", concrete=_real_roundtrips,
-     bounded_desc="random Hermitian System_R (27 R-vectors, AA matrices), num_wann = 1,2,5 (quick) / 1..6 (thorough): lattice, centres, Ham(R), band energies at 3 random k")
+     bounded_desc="random Hermitian System_R (27 R-vectors, AA matrices), num_wann = 1,2,5 (quick) / 1..6 (thorough); R-sets of 13, 15, 17, 45 vectors (the 15-per-line layout's corner cases; thorough: 1..75) through _hr.dat and _tb.dat: lattice, centres, Ham(R), band energies at 3 random k")
